@@ -33,6 +33,7 @@ package main
 import (
 	"fmt"
 	"go/ast"
+	"go/parser"
 	"go/token"
 	"path/filepath"
 	"sort"
@@ -106,7 +107,7 @@ var psConfigs = []psConfig{
 		fns: []psFnCfg{
 			{fn: "lookupTable.Init", lean: "lookupInit"},
 			{fn: "lookupTable.SelectInto", lean: "lookupSelect",
-				opaque: []psOpaque{{"xabs", "uint8((x + x>>7) ^ (x >> 7))", true}, {"xsign", "int((x >> 7) & 1)", false}}},
+				opaque: []psOpaque{{"xabs", "uint8((p1 + p1>>7) ^ (p1 >> 7))", true}, {"xsign", "int((p1 >> 7) & 1)", false}}},
 			{fn: "nafLookupTable5.Init", lean: "nafInit5"},
 			{fn: "nafLookupTable5.SelectInto", lean: "nafSelect5"},
 			{fn: "nafLookupTable8.Init", lean: "nafInit8"},
@@ -114,9 +115,9 @@ var psConfigs = []psConfig{
 			{fn: "basepointTable", lean: "basepointTable", onceDo: true},
 			{fn: "basepointNAFTable", lean: "basepointNAFTable", onceDo: true},
 			{fn: "Point.ScalarMult", lean: "scalarMult", atomic: true,
-				opaqueArr: map[string]psArrCfg{"digits": {"x.signedRadix16()", 112, false}}},
+				opaqueArr: map[string]psArrCfg{"digits": {"p0.signedRadix16()", 112, false}}},
 			{fn: "Point.ScalarBaseMult", lean: "scalarBaseMult", atomic: true,
-				opaqueArr: map[string]psArrCfg{"digits": {"x.signedRadix16()", 112, false}}},
+				opaqueArr: map[string]psArrCfg{"digits": {"p0.signedRadix16()", 112, false}}},
 		},
 		tableFuncs: map[string]string{"basepointTable": "varBasepointTable", "basepointNAFTable": "varBasepointNAFTable"},
 		guards:     []string{"checkInitialized"},
@@ -130,7 +131,7 @@ var psConfigs = []psConfig{
 			{fn: "lookupTable.SelectInto", lean: "lookupSelect"},
 			{fn: "initBaseTable", lean: "initBaseTable", onceDo: true},
 			{fn: "PointJacobian.ScalarMult", lean: "scalarMult", atomic: true,
-				opaqueArr: map[string]psArrCfg{"s": {"normalizeScalar(k)", 32, true}}},
+				opaqueArr: map[string]psArrCfg{"s": {"normalizeScalar(p1)", 32, true}}},
 		},
 	},
 }
@@ -138,6 +139,11 @@ var psConfigs = []psConfig{
 // ---------------------------------------------------------------------------------------------
 
 type psVar struct {
+	// role: the name used in everything the proofs PIN (inputs, outputs, hazards, paramWrites, facts):
+	// receiver r, parameters p0, p1, …, the array field of a table ….f0, locals l0, l1, … in order of
+	// declaration, opaque arrays a0, …; independent of the identifiers of the source.  `name` (the Go
+	// identifier) appears only in `vars` and in comments.
+	role  string
 	name  string
 	kind  string // "pt", "arr", "int", "iarr"
 	n     int    // array length
@@ -198,6 +204,7 @@ type psBind struct {
 	intv   *psVar
 	ie     *psIExpr
 	name   string
+	role   string
 	ptr    bool
 	defer_ ast.Expr // kind "deferred": pure single-assignment temporary, only substituted into opaque expressions
 }
@@ -233,6 +240,27 @@ type psCtx struct {
 	opqNF   []string
 	opqSeen []bool
 	nLoop   int
+	nLocal  int
+	nArr    int
+}
+
+func (c *psCtx) localRole(prefix string) string {
+	c.nLocal++
+	return fmt.Sprintf("%sl%d", prefix, c.nLocal-1)
+}
+
+// role of an identifier in scope (for the normal forms)
+func (c *psCtx) roleOf(sc *psScope) func(string) string {
+	return func(n string) string {
+		if b, ok := sc.m[n]; ok {
+			return b.role
+		}
+		return ""
+	}
+}
+
+func (c *psCtx) norm(sc *psScope, e ast.Expr) (string, error) {
+	return osNormRole(e, c.subst(sc), c.roleOf(sc))
 }
 
 type psScope struct {
@@ -321,7 +349,7 @@ func (c *psCtx) newVar(name, kind string) *psVar {
 			return c.newVar(name+"'", kind)
 		}
 	}
-	v := &psVar{name: name, kind: kind, id: len(c.vars)}
+	v := &psVar{name: name, role: name, kind: kind, id: len(c.vars)}
 	c.vars = append(c.vars, v)
 	return v
 }
@@ -356,7 +384,7 @@ func (c *psCtx) subst(sc *psScope) func(string) ast.Expr {
 func (c *psCtx) iexpr(sc *psScope, e ast.Expr) (*psIExpr, error) {
 	txt := c.p.text(e)
 	if c.depth == 0 && len(c.opq) > 0 {
-		if nf, err := osNorm(e, c.subst(sc), 0); err == nil {
+		if nf, err := c.norm(sc, e); err == nil {
 			for i, o := range c.fc.opaque {
 				if !o.def && c.opqNF[i] == nf {
 					c.opqSeen[i] = true
@@ -432,7 +460,7 @@ func (c *psCtx) iexpr(sc *psScope, e ast.Expr) (*psIExpr, error) {
 				}
 				c.facts = append(c.facts, [2]string{"index-checked", fmt.Sprintf("%s in [%d, %d] of %d", txt, lo, hi, b.n)})
 				c.facts = c.facts[:len(c.facts)-1]
-				c.facts = append(c.facts, [2]string{"index-checked", fmt.Sprintf("%s in [%d, %d] of %d", b.intv.name, lo, hi, b.n)})
+				c.facts = append(c.facts, [2]string{"index-checked", fmt.Sprintf("%s in [%d, %d] of %d", b.intv.role, lo, hi, b.n)})
 				return &psIExpr{op: "aget", x: b.intv, a: ie, nonneg: b.intv.nonneg}, nil
 			}
 		}
@@ -600,15 +628,15 @@ func (c *psCtx) pkgVar(sc *psScope, name string) *psBind {
 	var b *psBind
 	if tt, ok := c.p.tables[osTypeName(t)]; ok {
 		v := c.newVar(name+"."+tt.field, "arr")
-		v.n, v.ptype, v.input = tt.n, tt.ptype, true
-		b = &psBind{kind: "table", arr: v, n: tt.n, ttype: osTypeName(t), name: name}
+		v.n, v.ptype, v.input, v.role = tt.n, tt.ptype, true, name+".f0"
+		b = &psBind{kind: "table", arr: v, n: tt.n, ttype: osTypeName(t), name: name, role: name}
 	} else if at, ok := t.(*ast.ArrayType); ok && at.Len != nil {
 		cnt, ok1 := osConstInt(at.Len)
 		tt, ok2 := c.p.tables[osTypeName(at.Elt)]
 		if ok1 && ok2 {
 			v := c.newVar(name+"[]."+tt.field, "arr")
-			v.n, v.ptype, v.input = int(cnt)*tt.n, tt.ptype, true
-			b = &psBind{kind: "tables", arr: v, n: tt.n, count: int(cnt), ttype: osTypeName(at.Elt), name: name}
+			v.n, v.ptype, v.input, v.role = int(cnt)*tt.n, tt.ptype, true, name+"[].f0"
+			b = &psBind{kind: "tables", arr: v, n: tt.n, count: int(cnt), ttype: osTypeName(at.Elt), name: name, role: name}
 		}
 	}
 	if b != nil {
@@ -666,13 +694,13 @@ func (c *psCtx) place(sc *psScope, e ast.Expr, out *[]*psStmt) (psPlace, error) 
 			if lo < 0 || hi >= int64(a.n) {
 				return psPlace{}, c.p.errAt(e, "index %s ranges over [%d, %d], outside [0, %d)", c.p.text(x.Index), lo, hi, a.n)
 			}
-			c.facts = append(c.facts, [2]string{"index-checked", fmt.Sprintf("%s in [%d, %d] of %d", a.arr.name, lo, hi, a.n)})
+			c.facts = append(c.facts, [2]string{"index-checked", fmt.Sprintf("%s in [%d, %d] of %d", a.arr.role, lo, hi, a.n)})
 		} else {
-			nf, err := osNorm(x.Index, c.subst(sc), 0)
+			nf, err := c.norm(sc, x.Index)
 			if err != nil {
 				return psPlace{}, c.p.errAt(e, "index: %v", err)
 			}
-			c.facts = append(c.facts, [2]string{"index-unchecked", a.arr.name + "[" + nf + "]"})
+			c.facts = append(c.facts, [2]string{"index-unchecked", a.arr.role + "[" + nf + "]"})
 		}
 		return psPlace{v: a.arr, idx: psAdd(a.off, ie)}, nil
 	case *ast.CallExpr:
@@ -701,13 +729,13 @@ func (c *psCtx) tagged(t string) string {
 // call of a point method or of a table method (inlined); returns the receiver place for point methods
 func (c *psCtx) call(sc *psScope, call *ast.CallExpr, out *[]*psStmt) (psPlace, error) {
 	txt := c.p.text(call)
-	if op, ok := c.p.cfg.genExprs[txt]; ok {
+	if op, nfc := c.genExpr(sc, call); op != "" {
 		sel := call.Fun.(*ast.SelectorExpr)
 		dst, err := c.place(sc, sel.X, out)
 		if err != nil {
 			return psPlace{}, err
 		}
-		c.facts = append(c.facts, [2]string{"constant " + op, txt})
+		c.facts = append(c.facts, [2]string{"constant " + op, nfc})
 		dst.v.wrote = true
 		*out = append(*out, &psStmt{kind: "call", op: op, dst: dst, text: c.tagged(txt)})
 		return dst, nil
@@ -717,7 +745,11 @@ func (c *psCtx) call(sc *psScope, call *ast.CallExpr, out *[]*psStmt) (psPlace, 
 			if g == id.Name {
 				rec := []string{g}
 				for _, a := range call.Args {
-					rec = append(rec, c.p.text(a))
+					nf, err := c.norm(sc, a)
+					if err != nil {
+						return psPlace{}, c.p.errAt(a, "guard argument: %v", err)
+					}
+					rec = append(rec, nf)
 				}
 				c.guards = append(c.guards, rec)
 				return psPlace{}, nil
@@ -769,6 +801,29 @@ func (c *psCtx) call(sc *psScope, call *ast.CallExpr, out *[]*psStmt) (psPlace, 
 	dst.v.wrote = true
 	*out = append(*out, &psStmt{kind: "call", op: m.op, dst: dst, args: args, iargs: iargs, text: c.tagged(txt)})
 	return dst, nil
+}
+
+// a call that stands for a constant point (configured by its text, compared in normal form)
+func (c *psCtx) genExpr(sc *psScope, call *ast.CallExpr) (op, nf string) {
+	if len(c.p.cfg.genExprs) == 0 {
+		return "", ""
+	}
+	if _, ok := call.Fun.(*ast.SelectorExpr); !ok {
+		return "", ""
+	}
+	// variables of such an expression are compared by order of appearance only
+	got, err := osNormRole(call, nil, nil)
+	if err != nil {
+		return "", ""
+	}
+	for text, o := range c.p.cfg.genExprs {
+		if e, err := parser.ParseExpr(text); err == nil {
+			if want, err := osNormRole(e, nil, nil); err == nil && want == got {
+				return o, got
+			}
+		}
+	}
+	return "", ""
 }
 
 // `table.Init(p)` / `table.SelectInto(&dst, x)` as one statement
@@ -889,17 +944,18 @@ func (c *psCtx) stmts(sc *psScope, list []ast.Stmt, top bool) ([]*psStmt, error)
 					switch {
 					case c.p.points[tn]:
 						v := c.newVar(sc.prefix+n.Name, "pt")
-						v.ptype, v.local = tn, true
-						sc.m[n.Name] = &psBind{kind: "point", place: psPlace{v: v}, name: n.Name}
+						v.ptype, v.local, v.role = tn, true, c.localRole(sc.prefix)
+						sc.m[n.Name] = &psBind{kind: "point", place: psPlace{v: v}, name: n.Name, role: v.role}
 					case c.p.tables[tn].n > 0:
 						tt := c.p.tables[tn]
 						v := c.newVar(sc.prefix+n.Name+"."+tt.field, "arr")
-						v.n, v.ptype = tt.n, tt.ptype
-						sc.m[n.Name] = &psBind{kind: "table", arr: v, n: tt.n, ttype: tn, name: n.Name}
+						lr := c.localRole(sc.prefix)
+						v.n, v.ptype, v.role = tt.n, tt.ptype, lr+".f0"
+						sc.m[n.Name] = &psBind{kind: "table", arr: v, n: tt.n, ttype: tn, name: n.Name, role: lr}
 					default:
 						// declarations of other types (affine Point of curve256k1 …) are only legal if
 						// every use is covered by a configured constant expression
-						sc.m[n.Name] = &psBind{kind: "other", name: n.Name}
+						sc.m[n.Name] = &psBind{kind: "other", name: n.Name, role: c.localRole(sc.prefix)}
 					}
 				}
 			}
@@ -933,7 +989,11 @@ func (c *psCtx) stmts(sc *psScope, list []ast.Stmt, top bool) ([]*psStmt, error)
 				if es, ok := x.Body.List[0].(*ast.ExprStmt); ok {
 					if call, ok := es.X.(*ast.CallExpr); ok {
 						if id, ok := call.Fun.(*ast.Ident); ok && id.Name == "panic" {
-							c.guards = append(c.guards, []string{"panic-if", c.p.text(x.Cond)})
+							nf, err := c.norm(sc, x.Cond)
+							if err != nil {
+								return nil, c.p.errAt(x, "guard condition: %v", err)
+							}
+							c.guards = append(c.guards, []string{"panic-if", nf})
 							continue
 						}
 					}
@@ -988,7 +1048,7 @@ func (c *psCtx) assign(sc *psScope, x *ast.AssignStmt, out *[]*psStmt) error {
 	if c.depth == 0 {
 		for i, o := range c.fc.opaque {
 			if o.def && o.name == id.Name {
-				got, err := osNorm(rhs, c.subst(sc), 0)
+				got, err := c.norm(sc, rhs)
 				if err != nil {
 					return c.p.errAt(x, "opaque definition of %s: %v", id.Name, err)
 				}
@@ -999,7 +1059,7 @@ func (c *psCtx) assign(sc *psScope, x *ast.AssignStmt, out *[]*psStmt) error {
 					return c.p.errAt(x, "opaque variable %s is assigned more than once", id.Name)
 				}
 				c.opqSeen[i] = true
-				sc.m[id.Name] = &psBind{kind: "int", intv: c.opq[i]}
+				sc.m[id.Name] = &psBind{kind: "int", intv: c.opq[i], role: c.opq[i].role}
 				return nil
 			}
 		}
@@ -1010,7 +1070,7 @@ func (c *psCtx) assign(sc *psScope, x *ast.AssignStmt, out *[]*psStmt) error {
 		if err != nil {
 			return err
 		}
-		got, err := osNorm(rhs, c.subst(sc), 0)
+		got, err := c.norm(sc, rhs)
 		if err != nil {
 			return c.p.errAt(x, "opaque definition of %s: %v", id.Name, err)
 		}
@@ -1018,9 +1078,10 @@ func (c *psCtx) assign(sc *psScope, x *ast.AssignStmt, out *[]*psStmt) error {
 			return c.p.errAt(x, "opaque definition of %s changed: normal form %q (configured %q)", id.Name, got, want)
 		}
 		v := c.newVar(id.Name, "iarr")
-		v.n, v.input, v.nonneg = ac.n, true, ac.unsigned
-		c.facts = append(c.facts, [2]string{"opaque " + id.Name, got})
-		sc.m[id.Name] = &psBind{kind: "iarr", intv: v, n: ac.n}
+		v.n, v.input, v.nonneg, v.role = ac.n, true, ac.unsigned, fmt.Sprintf("a%d", c.nArr)
+		c.nArr++
+		c.facts = append(c.facts, [2]string{"opaque " + v.role, got})
+		sc.m[id.Name] = &psBind{kind: "iarr", intv: v, n: ac.n, role: v.role}
 		return nil
 	}
 	// table := basepointTable()
@@ -1050,9 +1111,9 @@ func (c *psCtx) assign(sc *psScope, x *ast.AssignStmt, out *[]*psStmt) error {
 		if fid, ok := call.Fun.(*ast.Ident); ok {
 			if op, ok := c.p.cfg.ctors[fid.Name]; ok && len(call.Args) == 0 {
 				v := c.newVar(sc.prefix+id.Name, "pt")
-				v.wrote = true
+				v.wrote, v.role = true, c.localRole(sc.prefix)
 				*out = append(*out, &psStmt{kind: "call", op: op, dst: psPlace{v: v}, text: c.tagged(c.p.text(x))})
-				sc.m[id.Name] = &psBind{kind: "point", place: psPlace{v: v}, name: id.Name, ptr: true}
+				sc.m[id.Name] = &psBind{kind: "point", place: psPlace{v: v}, name: id.Name, ptr: true, role: v.role}
 				return nil
 			}
 		}
@@ -1062,8 +1123,8 @@ func (c *psCtx) assign(sc *psScope, x *ast.AssignStmt, out *[]*psStmt) error {
 				if err != nil {
 					return err
 				}
-				c.facts = append(c.facts, [2]string{"alias " + sc.prefix + id.Name, c.p.text(sel.X)})
-				sc.m[id.Name] = &psBind{kind: "point", place: pl, name: id.Name, ptr: true}
+				c.facts = append(c.facts, [2]string{"alias", pl.v.role})
+				sc.m[id.Name] = &psBind{kind: "point", place: pl, name: id.Name, ptr: true, role: pl.v.role}
 				return nil
 			}
 		}
@@ -1082,9 +1143,9 @@ func (c *psCtx) assign(sc *psScope, x *ast.AssignStmt, out *[]*psStmt) error {
 		return err
 	}
 	v := c.newVar(sc.prefix+id.Name, "int")
-	v.nonneg = ie.nonneg
+	v.nonneg, v.role = ie.nonneg, c.localRole(sc.prefix)
 	*out = append(*out, &psStmt{kind: "assign", v: v, e: ie, text: c.tagged(c.p.text(x))})
-	sc.m[id.Name] = &psBind{kind: "int", intv: v}
+	sc.m[id.Name] = &psBind{kind: "int", intv: v, role: v.role}
 	return nil
 }
 
@@ -1162,7 +1223,8 @@ func (c *psCtx) forStmt(sc *psScope, x *ast.ForStmt) (*psStmt, error) {
 	inner := sc.child()
 	v := c.newVar(sc.prefix+iv.Name, "int")
 	v.nonneg = (down && hi >= 0) || (!down && lo >= 0)
-	inner.m[iv.Name] = &psBind{kind: "int", intv: v}
+	v.role = c.localRole(sc.prefix)
+	inner.m[iv.Name] = &psBind{kind: "int", intv: v, role: v.role}
 	// the loop variable must not be assigned in the body
 	bad := false
 	ast.Inspect(x.Body, func(n ast.Node) bool {
@@ -1295,7 +1357,7 @@ func (c *psCtx) rangeStmt(sc *psScope, x *ast.RangeStmt) (*psStmt, error) {
 	}
 	inner := sc.child()
 	j := c.newVar(sc.prefix+"range#"+strconv.Itoa(c.nLoop+1), "int")
-	j.nonneg = true
+	j.nonneg, j.role = true, c.localRole(sc.prefix)
 	jv := &psIExpr{op: "var", x: j, nonneg: true}
 	if kn != "" {
 		inner.m[kn] = &psBind{kind: "iexpr", ie: &psIExpr{op: "sub", a: jv, b: psLit(lo), nonneg: true}}
@@ -1306,7 +1368,7 @@ func (c *psCtx) rangeStmt(sc *psScope, x *ast.RangeStmt) (*psStmt, error) {
 	if vn != "" {
 		inner.m[vn] = &psBind{kind: "iexpr", ie: &psIExpr{op: "aget", x: iarr.intv, a: jv, nonneg: iarr.intv.nonneg}}
 		if hi > lo {
-			c.facts = append(c.facts, [2]string{"index-checked", fmt.Sprintf("%s in [%d, %d] of %d", iarr.intv.name, lo, hi-1, n)})
+			c.facts = append(c.facts, [2]string{"index-checked", fmt.Sprintf("%s in [%d, %d] of %d", iarr.intv.role, lo, hi-1, n)})
 		}
 	}
 	c.loops = append(c.loops, psLoop{j, lo, hi, 1})
@@ -1345,25 +1407,31 @@ func psTranslate(p *psPkg, fc *psFnCfg) (*psResult, error) {
 	}
 	c := &psCtx{p: p, fc: fc, nInline: map[string]int{}}
 	sc := &psScope{m: map[string]*psBind{}}
+	nParam := 0
 	add := func(name string, typ ast.Expr, recv bool) error {
 		tn := osTypeName(typ)
+		role := "r"
+		if !recv {
+			role = fmt.Sprintf("p%d", nParam)
+			nParam++
+		}
 		switch {
 		case strings.HasPrefix(tn, "*") && p.points[tn[1:]]:
 			v := c.newVar(name, "pt")
-			v.ptype, v.root, v.recv, v.input, v.wrote = tn[1:], name, recv, true, true
-			sc.m[name] = &psBind{kind: "point", place: psPlace{v: v}, name: name, ptr: true}
+			v.ptype, v.root, v.recv, v.input, v.wrote, v.role = tn[1:], name, recv, true, true, role
+			sc.m[name] = &psBind{kind: "point", place: psPlace{v: v}, name: name, ptr: true, role: role}
 		case strings.HasPrefix(tn, "*") && p.tables[tn[1:]].n > 0:
 			tt := p.tables[tn[1:]]
 			v := c.newVar(name+"."+tt.field, "arr")
-			v.n, v.ptype, v.root, v.recv, v.input, v.wrote = tt.n, tt.ptype, name, recv, true, true
-			sc.m[name] = &psBind{kind: "table", arr: v, n: tt.n, ttype: tn[1:], name: name, ptr: true}
+			v.n, v.ptype, v.root, v.recv, v.input, v.wrote, v.role = tt.n, tt.ptype, name, recv, true, true, role+".f0"
+			sc.m[name] = &psBind{kind: "table", arr: v, n: tt.n, ttype: tn[1:], name: name, ptr: true, role: role}
 		case tn == "int8" || tn == "uint8" || tn == "int":
 			v := c.newVar(name, "int")
-			v.input, v.nonneg = true, tn == "uint8"
-			sc.m[name] = &psBind{kind: "int", intv: v}
+			v.input, v.nonneg, v.role = true, tn == "uint8", role
+			sc.m[name] = &psBind{kind: "int", intv: v, role: role}
 		default:
 			// usable only inside opaque texts
-			sc.m[name] = &psBind{kind: "other", name: name}
+			sc.m[name] = &psBind{kind: "other", name: name, role: role}
 		}
 		return nil
 	}
@@ -1433,7 +1501,7 @@ func psTranslate(p *psPkg, fc *psFnCfg) (*psResult, error) {
 	r := &psResult{fc: fc, vars: c.vars, body: body, guards: c.guards, facts: c.facts}
 	for _, v := range c.vars {
 		if v.input {
-			r.ins = append(r.ins, v.name)
+			r.ins = append(r.ins, v.role)
 		}
 	}
 	// effects in program order (loop bodies twice, to see cross-iteration order)
@@ -1475,11 +1543,11 @@ func psTranslate(p *psPkg, fc *psFnCfg) (*psResult, error) {
 		}
 		if (e.v.root != "" || (e.v.input && e.v.kind != "int")) && !outSet[e.v.name] {
 			outSet[e.v.name] = true
-			r.outs = append(r.outs, e.v.name)
+			r.outs = append(r.outs, e.v.role)
 		}
 		if e.v.root != "" && !e.v.recv && !seenW[e.v.name] {
 			seenW[e.v.name] = true
-			r.paramWrites = append(r.paramWrites, e.v.name)
+			r.paramWrites = append(r.paramWrites, e.v.role)
 		}
 		if e.v.root == "" {
 			continue
@@ -1492,7 +1560,7 @@ func psTranslate(p *psPkg, fc *psFnCfg) (*psResult, error) {
 			if f.write {
 				kind = "write"
 			}
-			h := fmt.Sprintf("%s of %s after write of %s", kind, f.v.name, e.v.name)
+			h := fmt.Sprintf("%s of %s after write of %s", kind, f.v.role, e.v.role)
 			if !seenH[h] {
 				seenH[h] = true
 				r.hazards = append(r.hazards, h)
